@@ -1,8 +1,9 @@
 """C15 — bad input fails cleanly.
 
 Deciding artefact for the binding layer: the theorems of coq/Properties/C15.v over Model/Parser.v
-(`outcome_documented` for every stream of parser events, refuted by concrete witnesses, proved under one
-guard clause per refutation; linear step count).  Tie: differential correspondence model <-> real parser on
+(`outcome_documented` for every well nested stream of parser events; the one remaining refutation is an
+`end` without `start` on user supplied event lists; four earlier refutations were repaired in /repo and their
+witnesses are replayed as regression cases; linear step count).  Tie: differential correspondence model <-> real parser on
 the events the real handlers delivered for FAULTED documents (so every undocumented exception the
 implementation raises in the binding layer is either reproduced by the model through a specific modelled
 defect -> narrow known-finding class, or a correspondence violation).
@@ -12,6 +13,7 @@ duplication / retagging / reordering, value and attribute corruption, bad xsi:ty
 prefixes, wrong root, random bytes; both handlers and JsonParser; every call under signal.alarm(5).
 """
 import json
+import os
 
 import common
 from common import Check, standard_proof_step, TRUSTED_COMMON
@@ -67,7 +69,7 @@ def run(ck: Check):
                 continue
             terms.append(corr_term(j, c))
             meta.append((j, c))
-    codes = coq_codes("c15_bind", defs, "corr_case", "c15_code_guarded", terms, imports=IMPORTS)
+    codes = coq_codes(f"c15_bind_{os.getpid()}", defs, "corr_case", "c15_code_guarded", terms, imports=IMPORTS)
     undocumented = {}
     guards_true = 0
     not_wf = set()
